@@ -38,6 +38,10 @@ pub enum ModelParseError {
     #[error("Position is out of the range of data")]
     PositionOutOfRange,
 
+    #[error("A tree refers to a node that is not defined")]
+    TreeNodeNotFound,
+    #[error("A tree refers to a question that is not defined")]
+    QuestionNotFound,
     #[error("USE_GV is true, but positions for GV is not set")]
     UseGvError,
 
